@@ -450,6 +450,24 @@ class RecvUnit(Unit):
         logging.disable(logging.CRITICAL)
         from replay_drivers import zmq_history
         info = failure['extra']
+        if 'C03.handshake' in failure.get('obligation', ''):
+            # native: real receiver on the in-memory sockets, one source heard and a later one not yet: the requests of one recv() must say `new` exactly for the unheard ones
+            import json
+            Z = zmq_history.load()
+            obs = []
+            for n, heard in ((2, [0]), (2, [1]), (3, [0, 2]), (2, [])):
+                r = Z.ZMQReceiver([(f'tcp://h{k}:{6000 + 2 * k}', None) for k in range(n)], 'sink')
+                snds = list(r.senders.values())
+                for k in heard:
+                    snds[k].conn = True
+                r.recv(timeout=0)
+                for k, snd in enumerate(snds):
+                    for m in snd.push.sent:
+                        body = json.loads(m[0])
+                        if body.get('mid', 0) > -2 and bool(body.get('new')) != (k not in heard):
+                            obs.append(f'{n} sources, heard so far {heard}: request to source {k} carries new={body.get("new")!r}')
+            return {'confirmed': bool(obs), 'inputs': 'recv(timeout=0) on a receiver some of whose sources have been heard', 'observed': sorted(set(obs))[:4] or 'new exactly for the unheard sources',
+                    'required': 'a request says `new` exactly while the consumer has not heard from that source'}
         r = zmq_history.search(tuple(info['modes']), tuple(info['ephs']), info['balance'], n_random=1500, seed=0)
         r['inputs'] = dict(sources=[dict(subscription=m, ephemeral=e) for m, e in zip(info['modes'], info['ephs'])], balanced=info['balance'],
                            history=r.pop('history', None))
